@@ -88,6 +88,8 @@ def build_stack(w):
     if w.get("pos") == "over_subset":
         base = KDSubset(root, perm)
     seed = w["seed"]
+    if w.get("seed_form") == "numpy":
+        seed = np.int64(seed)  # a seed taken from an array of seeds
     if kind in ("x", "y", "source", "target"):
         cls = {"x": W.XTransformWrapper, "y": W.YTransformWrapper, "source": W.SourceTransformWrapper, "target": W.TargetTransformWrapper}[kind]
         ds = cls(base, transform=treg.build(w["t"]), seed=seed)
@@ -342,7 +344,8 @@ def wrapper_spec(draw, tier):
     kind = draw(st.sampled_from(["x", "x", "x", "y", "source", "target", "multiview", "multiview", "mix", "mix", "semseg", "semseg", "x_over_mix", "xy_shared",
                                  "minaug_x", "minaug_mv"] + (["byol", "mugs"] if tier == "thorough" else [])))
     w = {"kind": kind, "n": draw(st.integers(2, 7)), "key": draw(st.integers(0, 99)), "seed": draw(st.integers(0, 2 ** 31)),
-         "pos": draw(st.sampled_from(["top", "under_pass", "over_subset", "under_subset"]))}
+         "pos": draw(st.sampled_from(["top", "under_pass", "over_subset", "under_subset"])),
+         "seed_form": draw(st.sampled_from(["int", "int", "numpy"]))}
     if kind in ("x", "y", "source", "target"):
         w["t"] = draw(NOSCHED)
         w["fam"] = treg.family(w["t"])
